@@ -194,10 +194,15 @@ def check_dataset(ds, seen_text, check_dims=True):
 
 
 SPEC = [("k", int), ("kind", int), ("p", int), ("c", str), ("ci", int), ("s", str), ("doc", int), ("fmt", str), ("lo", int), ("hi", int), ("L", int),
-        ("family", str)]
+        ("family", str), ("route", int)]
 
 
-def run_reader(fmt, stream, opts=None):
+def run_reader(fmt, stream, opts=None, route=0):
+    if route == 1:
+        # the one-tree-at-a-time iterator has its own driver loop around the same block parsers
+        return list(dendropy.Tree.yield_from_files([stream], schema=fmt))
+    if route == 2:
+        return dendropy.TreeList.get(file=stream, schema=fmt)
     if fmt == "newick":
         return dendropy.TreeList.get(file=stream, schema="newick")
     if fmt == "nexus":
@@ -209,7 +214,7 @@ def run_reader(fmt, stream, opts=None):
     raise Fail("harness:fmt")
 
 
-def judge(fmt, kind, res, stream, doc_index, check_dims=True):
+def judge(fmt, kind, res, stream, doc_index, check_dims=True, route=0):
     if kind == "value-error":
         # documented ValueError: only for a source that holds no data at all
         seen = "".join(stream.seen).strip()
@@ -218,7 +223,7 @@ def judge(fmt, kind, res, stream, doc_index, check_dims=True):
         return "undocumented-value-error@%s" % (res[0],)
     if kind != "ok":
         return True
-    if fmt == "newick":
+    if fmt == "newick" or route in (1, 2):
         r = check_trees(res)
     elif fmt == "nexus":
         r = check_dataset(res, "".join(stream.seen), check_dims)
@@ -253,8 +258,9 @@ def c20_truncate(kw):
     # every read - walks the same |doc|+1 paths at one solver query per character read)
     k = kw["lo"] + choose(k - kw["lo"], kw["hi"] - kw["lo"])
     stream = EditStream(doc, k)
-    kind, res = outcome(lambda: run_reader(fmt, stream, opts))
-    return judge(fmt, kind, res, stream, di)
+    route = kw["route"]
+    kind, res = outcome(lambda: run_reader(fmt, stream, opts, route))
+    return judge(fmt, kind, res, stream, di, route=route)
 
 
 @with_signature(SPEC)
@@ -327,8 +333,18 @@ def harnesses(tier):
     for fmt in ("newick", "nexus", "phylip", "fasta"):
         for di, doc in enumerate(docs_for(fmt)):
             for lo in range(0, len(doc) + 1, step):
-                tr.append(dict(fmt=fmt, doc=di, lo=lo, hi=min(lo + step, len(doc) + 1), family="truncate", L=0))
+                tr.append(dict(fmt=fmt, doc=di, lo=lo, hi=min(lo + step, len(doc) + 1), family="truncate", L=0, route=0))
+            if fmt in ("newick", "nexus"):
+                # the other drivers around the same parsers: Tree.yield_from_files (1) and, for NEXUS, TreeList.get (2)
+                for route in ((1,) if fmt == "newick" else (1, 2)):
+                    for lo in range(0, len(doc) + 1, step * 2):
+                        tr.append(dict(fmt=fmt, doc=di, lo=lo, hi=min(lo + step * 2, len(doc) + 1), family="truncate", L=0, route=route))
             if q and (fmt == "nexus" and di > 0):
+                if di == 1:
+                    # quick tier: of the further NEXUS documents only the interleaved matrix body
+                    a, b = doc.index("MATRIX") + 6, doc.index(";\nEND;\nBEGIN SETS")
+                    for lo in range(a, b, 6):
+                        co.append(dict(fmt=fmt, doc=di, lo=lo, hi=min(lo + 6, b + 1), family="corrupt", L=0))
                 continue
             cstep = 6 if fmt in ("newick", "nexus") else 8
             for lo in range(0, len(doc), cstep):
@@ -341,11 +357,12 @@ def harnesses(tier):
     hs = [Harness("c20_truncate", "C20", c20_truncate, tr,
                   bounds=dict(corpus="%d Newick, %d NEXUS (TAXA/CHARACTERS/DATA interleaved/SETS/TREES with TRANSLATE/multiple linked blocks), %d PHYLIP, %d FASTA documents"
                               % (len(NEWICK_DOCS), len(NEXUS_DOCS), len(PHYLIP_DOCS), len(FASTA_DOCS)),
-                              cut="every truncation point 0..len(document), symbolic within shards of %d positions" % step),
-                  functions=["Tokenizer.*", "NexusTokenizer.*", "NewickReader._parse_*", "NexusReader._parse_*", "PhylipReader._read/_parse_*", "FastaReader._read"],
-                  cost=3.0, **common),
+                              cut="every truncation point 0..len(document), symbolic within shards of %d positions" % step,
+                              routes="DataSet.get (NEXUS) / TreeList.get (Newick) / CharacterMatrix.get (PHYLIP, FASTA); Newick and NEXUS also through Tree.yield_from_files, NEXUS also through TreeList.get"),
+                  functions=["Tokenizer.*", "NexusTokenizer.*", "NewickReader._parse_*", "NexusReader._parse_*", "PhylipReader._read/_parse_*", "FastaReader._read", "NexusTreeDataYielder._yield_items_from_stream", "NewickTreeDataYielder"],
+                  cost=4.0, **common),
           Harness("c20_corrupt", "C20", c20_corrupt, co,
-                  bounds=dict(corpus="as c20_truncate" + (" (first NEXUS document only)" if q else ""),
+                  bounds=dict(corpus="as c20_truncate" + (" (first NEXUS document; of the second only the interleaved matrix body)" if q else ""),
                               edit="replace / delete / insert at a symbolic position; Newick/NEXUS: the character is a symbolic choice from %r; PHYLIP/FASTA: symbolic choice among '>A- \\n1'" % TOKEN_ALPHABET),
                   functions=["as c20_truncate"], cost=4.0, **common)]
     L = 2 if q else 3
